@@ -82,3 +82,62 @@ exact: (@square_step F nb nf ne A B C D S T Q Z Ta u QAZ QBZ uQ S21_0 T21_0 uS11
 Qed.
 
 End Path.
+
+(* ================================================================== *)
+(* 3. The steady state of the unsolved system is a fixed point of the solved recursion      *)
+Section Steady.
+Variable F : fieldType.
+Variables nb nf ne : nat.
+Variables (A B : 'M[F]_(nb + nf, nf + nb)) (C : 'cV[F]_(nb + nf)) (D : 'M[F]_(nb + nf, ne)).
+Variables (S T Q : 'M[F]_(nb + nf)) (Z : 'M[F]_(nf + nb, nb + nf)) (Zi : 'M[F]_(nb + nf, nf + nb)) (Ta u : 'M[F]_nb).
+
+Notation O := (MCOps F).
+Let p := @solve_transition O nb nf ne S T Q Z C D.
+Let sq := @square_from_triangular O nb nf ne (@detach O nb nf ne p Ta u).
+
+Hypothesis QAZ : Q *m A *m Z = S.
+Hypothesis QBZ : Q *m B *m Z = T.
+Hypothesis ZZi : Z *m Zi = 1%:M.
+Hypothesis S21_0 : dlsubmx S = 0.
+Hypothesis T21_0 : dlsubmx T = 0.
+Hypothesis uS11 : ulsubmx S \in unitmx.
+Hypothesis uT22 : drsubmx T \in unitmx.
+Hypothesis uST22 : drsubmx S + drsubmx T \in unitmx.
+Hypothesis uZ21 : dlsubmx Z \in unitmx.
+Hypothesis uu : u *m u^T = 1%:M.
+Hypothesis schur : ts_Tg p = u *m Ta *m u^T.
+
+Theorem steady_is_fixed_point (xbar : 'cV[F]_(nf + nb)) :
+  A *m xbar + B *m xbar + C = 0 -> sq_T sq *m dsubmx xbar + sq_K sq = dsubmx xbar.
+Proof.
+move=> st.
+pose w := Zi *m xbar.
+have Zw : Z *m w = xbar by rewrite /w mulmxA ZZi mul1mx.
+have H1 : S *m w + T *m w + Q *m C = 0.
+  by rewrite -QAZ -QBZ -!mulmxA Zw -!mulmxDr st mulmx0.
+move: H1; rewrite -[w]vsubmxK; set s := usubmx w; set ub := dsubmx w.
+rewrite -{1}[S]submxK -{1}[T]submxK S21_0 T21_0 !mul_block_col !mul0mx !add0r.
+rewrite -[Q *m C]vsubmxK !add_col_mx -[0]col_mx0 => /eq_col_mx [up lo].
+(* unstable block: ub = Ku *)
+have KuE : ub = ts_Ku p.
+  have e1 : (drsubmx S + drsubmx T) *m ub = (drsubmx S + drsubmx T) *m ts_Ku p.
+    rewrite (@ST22Ku F nf (drsubmx S) (drsubmx T) (dsubmx (Q *m C)) (ts_Ku p) uST22 erefl) mulmxDl.
+    by apply/eqP; rewrite -subr_eq0 opprK; apply/eqP.
+  by rewrite -[LHS](mulKmx uST22) e1 mulKmx.
+pose g := s - ts_G p *m ts_Ku p.
+have sE : s = g + ts_G p *m ts_Ku p by rewrite /g subrK.
+have fp : ts_Tg p *m g + ts_Kg p = g.
+  apply: (@core_fixed_point F nb nf ne (ulsubmx S) (ulsubmx T) (ursubmx S) (ursubmx T) (usubmx (Q *m C))
+            (usubmx (Q *m D)) (ts_G p) (ts_Xg0 p) (ts_Xg1 p) (ts_Xg p) (ts_Ku p) (ts_Ru p) (ts_J p)
+            (ts_Tg p) (ts_Rg p) (ts_Kg p) uS11 erefl erefl erefl erefl erefl erefl).
+  rewrite -sE -KuE !mulmxDl -up.
+  move: (ulsubmx S *m s) (ulsubmx T *m s) (ursubmx S *m ub) (ursubmx T *m ub) => y1 y2 y3 y4; mx_abel.
+have bot : dsubmx xbar = dlsubmx Z *m g.
+  by rewrite -Zw -[w]vsubmxK -/s -/ub sE KuE (@Zw_bottom F nb nf ne S T Q Z C D uZ21).
+have TE := @Tsq_eq F nb nf ne C D S T Q Z Ta u uZ21 uu schur.
+have KE := @K_eq F nb nf ne C D S T Q Z Ta u uu.
+rewrite bot -/sq in TE KE *; rewrite TE KE -!mulmxA (mulKmx uZ21) -mulmxDr.
+by congr (_ *m _); rewrite mulmxA; exact: fp.
+Qed.
+
+End Steady.
